@@ -669,6 +669,221 @@ def d1_propose(ck):
     ck.floor(rule, n, 2, 'proposal definitions')
 
 
+def _helper_expr(stmts):
+    """The expression computed by a helper body made only of `return e` and
+    `if c: ... [else: ...]` whose branches all return; None otherwise."""
+    body = [s for s in stmts if not (isinstance(s, ast.Pass) or (
+        isinstance(s, ast.Expr) and isinstance(s.value, ast.Constant)))]
+    if not body:
+        return None
+    s = body[0]
+    if isinstance(s, ast.Return) and s.value is not None:
+        return s.value
+    if isinstance(s, ast.If):
+        a = _helper_expr(s.body)
+        b = _helper_expr(s.orelse) if s.orelse else _helper_expr(body[1:])
+        if a is None or b is None:
+            return None
+        return ast.IfExp(test=s.test, body=a, orelse=b)
+    return None
+
+
+def _inline_local_helper(fi, call):
+    """A call of a nested `def h(p, ...)` of the analysed function (single
+    reaching definition, plain positional parameters, body = an expression):
+    that expression with the parameters replaced by the argument nodes."""
+    if not isinstance(call.func, ast.Name) or call.keywords or \
+            any(isinstance(a, ast.Starred) for a in call.args):
+        return None
+    try:
+        defs = fi.defs_of_use(call.func)
+    except Exception:
+        return None
+    if len(defs) != 1:
+        return None
+    h = next(iter(defs))
+    if not isinstance(h, ast.FunctionDef) or h.decorator_list:
+        return None
+    a = h.args
+    if a.vararg or a.kwarg or a.kwonlyargs or a.defaults or a.posonlyargs or len(a.args) != len(call.args):
+        return None
+    e = _helper_expr(h.body)
+    if e is None or any(isinstance(n, (ast.Lambda, ast.comprehension, ast.NamedExpr, ast.Yield,
+                                       ast.YieldFrom, ast.Await)) for n in ast.walk(e)):
+        return None
+    env = dict(zip([x.arg for x in a.args], call.args))
+
+    def subst(x):
+        if isinstance(x, ast.Name):
+            return env[x.id] if x.id in env and isinstance(x.ctx, ast.Load) else x
+        if not isinstance(x, ast.AST) or isinstance(x, (ast.expr_context, ast.operator, ast.unaryop,
+                                                         ast.boolop, ast.cmpop)):
+            return x
+        new = type(x)()
+        for f in x._fields:
+            val = getattr(x, f, None)
+            if isinstance(val, list):
+                setattr(new, f, [subst(y) for y in val])
+            elif isinstance(val, ast.AST):
+                setattr(new, f, subst(val))
+            else:
+                setattr(new, f, val)
+        return ast.copy_location(new, x) if hasattr(x, 'lineno') else new
+    return subst(e)
+
+
+def _max_of(fi, e, D, at, depth=4):
+    """Is `e` (evaluated at statement `at`) the maximum of the CURRENT value of
+    the array named D?  -> 'yes' | 'no' | 'unknown'.  Seen through named
+    temporaries with several definitions (if/else, before the loop / at the end
+    of the body) and through conditional expressions; a definition that is
+    followed by a rebinding of D on the way to `at` is stale -> 'unknown'."""
+    def combine(vs):
+        vs = set(vs)
+        if vs == {'yes'}:
+            return 'yes'
+        if vs == {'no'}:
+            return 'no'
+        return 'unknown'
+    if isinstance(e, ast.IfExp):
+        return combine([_max_of(fi, e.body, D, at, depth), _max_of(fi, e.orelse, D, at, depth)])
+    if isinstance(e, ast.Constant):
+        return 'no'
+    if isinstance(e, ast.Name):
+        try:
+            defs = fi.rd.defs_at(at, e.id) if at is not None else fi.defs_of_use(e)
+        except Exception:
+            return 'unknown'
+        if not defs or depth <= 0:
+            return 'unknown'
+        if defs == {'PARAM'}:
+            return 'no'
+        out = []
+        cfg = fi.cfg
+        sites = [s for s in defs if s not in ('PARAM', 'UNBOUND')]
+        # a (re)binding of D that reaches `at` without a later definition of
+        # the temporary: the temporary describes an older array
+        stale = at is not None and any(
+            d is not at and cfg.reachable(d, at, avoiding=sites) for d in assigns_to(fi.fn, D))
+        for site in defs:
+            if site == 'PARAM':
+                out.append('no')        # a caller-supplied value
+                continue
+            if site == 'UNBOUND':
+                out.append('unknown')
+                continue
+            v = fi.def_value(site, e.id)
+            if v is None:
+                out.append('unknown')
+                continue
+            r = _max_of(fi, v, D, site, depth - 1)
+            if r == 'yes' and stale:
+                r = 'unknown'       # D is rebound after the maximum was taken
+            out.append(r)
+        return combine(out)
+    if isinstance(e, ast.Call) and depth > 0:
+        body = _inline_local_helper(fi, e)
+        if body is not None:
+            return _max_of(fi, body, D, at, depth - 1)
+    x = canon(e)
+    if isinstance(x, ast.Call):
+        ln = _last(call_name(x))
+        if isinstance(x.func, ast.Attribute) and x.func.attr == 'max' and not x.args and not x.keywords:
+            if isinstance(x.func.value, ast.Name):
+                return 'yes' if x.func.value.id == D else 'no'
+            return 'unknown'
+        if ln in ('striped_array_max', 'amax', 'max', 'nanmax') and len(x.args) == 1 and not x.keywords \
+                and isinstance(x.args[0], ast.Name):
+            return 'yes' if x.args[0].id == D else 'no'
+        if call_name(x) == 'len' and len(x.args) == 1:
+            return 'no'         # a count, not a distance
+        return 'unknown'
+    if isinstance(x, (ast.Attribute, ast.Subscript, ast.BinOp, ast.UnaryOp)):
+        return 'unknown' if D in names_loaded(x) else 'no'
+    return 'unknown'
+
+
+def d1_no_reselect(ck):
+    """kcenters(): a frame that already is a centre is never selected again.
+    Every trip makes argmax(distances) the new centre; a centre frame has
+    distance 0 to itself, so a trip may only be taken while max(distances) is
+    STRICTLY above a non-negative bound: the loop guard must contain the
+    conjunct `cutoff < max(<the distances handed to the iteration>)`.  With
+    `<=` (or without the conjunct) a trip happens at max == cutoff == 0 (the
+    default cutoff, more centres requested than distinct frames): an existing
+    centre frame is appended again as centre j although it carries its old
+    label - center_indices are no longer distinct and 'every centre frame
+    carries its own label' fails."""
+    rule = 'C01.D1.no-reselect'
+    mod = ck.repo.mod(KC)
+    F = 'kcenters'
+    fn = mod.func(F)
+    fi = finfo(mod, fn)
+    ck.analysed(mod, fn)
+    its = [c for c in calls_in(fn)
+           if _callee_names(fi, c) & {'_kcenters_iteration', '_kcenters_iteration_mpi'}]
+    loops = []
+    for c in its:
+        loop = _enclosing(mod, c, (ast.While, ast.For), stop=fn)
+        d = arg_or_kw(c, 2, 'distances')
+        if loop is None or not isinstance(d, ast.Name):
+            ck.missing(rule, 'kcenters: iteration call outside a loop or distances argument not a plain name: %s' % u(c)[:80])
+            continue
+        if not any(l is loop for l, _ in loops):
+            loops.append((loop, d))
+    n = 0
+    for loop, d in loops:
+        if not isinstance(loop, ast.While):
+            ck.missing(rule, 'kcenters: the centre-adding loop is not a while loop: cannot see its stopping rule')
+            continue
+        if fi.rd.defs_at(loop, d.id) != fi.defs_of_use(d):
+            ck.missing(rule, 'kcenters: `%s` is rebound between the loop test and the iteration call' % d.id)
+            continue
+        cs = conjuncts(loop.test, True)
+        if cs is None:
+            ck.missing(rule, 'kcenters: loop guard is not a conjunction: %s' % u(loop.test)[:100])
+            continue
+        radius, unknown = [], []
+        for c in cs:
+            less = c.as_less() if hasattr(c, 'as_less') else None
+            if less is None:
+                # a non-ordering conjunct can only restrict the trips further
+                if not hasattr(c, 'as_less') or d.id in names_loaded(c.lhs) | names_loaded(c.rhs):
+                    unknown.append(c)
+                continue
+            small, strict, big = less
+            kb, ks = _max_of(fi, big, d.id, loop), _max_of(fi, small, d.id, loop)
+            if kb == 'yes' and ks == 'no':
+                radius.append((c, strict, True))
+            elif ks == 'yes' and kb == 'no':
+                radius.append((c, strict, False))
+            elif 'unknown' in (kb, ks) or 'yes' in (kb, ks):
+                unknown.append(c)
+        n += 1
+        good = [r for r in radius if r[1] and r[2]]
+        if good:
+            ck.ok(rule, mod, loop, str(good[0][0]),
+                  'a trip is taken only while the largest distance is strictly above the cutoff: '
+                  'the frame selected by argmax is not yet a centre')
+        elif radius:
+            c, strict, right = radius[0]
+            ck.bad(rule, mod, loop, F, str(c),
+                   'the loop guard lets a trip happen when the largest distance is %s the cutoff; with the default '
+                   'cutoff 0 that is the state in which every frame is at distance 0 from its centre (more centres '
+                   'requested than distinct frames): argmax then selects a frame that already is a centre, which is '
+                   'appended again as a further centre although it keeps its old label' % (
+                       'equal to' if right else 'below'))
+        elif unknown or any(isinstance(x, (ast.Break, ast.Return, ast.Raise)) for x in walk_local(loop)):
+            # (a loop left from inside its body may test the radius there)
+            ck.missing(rule, 'kcenters: radius conjunct of the loop guard not recognised: %s' % u(loop.test)[:120])
+            n -= 1
+        else:
+            ck.bad(rule, mod, loop, F, u(loop.test)[:160],
+                   'the loop guard has no test `cutoff < max(%s)`: trips continue when every frame already is at '
+                   'distance 0 from its centre, and argmax re-selects an existing centre frame' % d.id)
+    ck.floor(rule, n, 1, 'centre-adding loops with a strict radius test')
+
+
 # ---------------------------------------------------------------------------
 # D2 (argmin branch, shortcut opt-in; the commit itself is in cluster_common)
 
@@ -1291,6 +1506,182 @@ def d4_result_fields(ck):
                  'returns (labels, distances)', 'return order changed: must be (%s, %s)' % (lab, cur))
 
 
+_WIDE_INT = {'int', 'np.int64', 'np.intp', 'np.int_', 'np.longlong', 'np.uint64', 'np.uintp',
+             "'int'", "'int64'", "'i8'", "'intp'", "'<i8'", "'uint64'", "'u8'", "'q'", "'p'",
+             'np.dtype(int)', "np.dtype('int64')", "np.dtype('int')", 'np.dtype(np.int64)', 'np.dtype(np.intp)'}
+_NARROW = {'np.int8', 'np.int16', 'np.int32', 'np.uint8', 'np.uint16', 'np.uint32', 'np.short', 'np.ushort',
+           'np.intc', 'np.uintc', 'np.byte', 'np.ubyte', 'bool', 'np.bool_', 'np.bool',
+           "'i1'", "'i2'", "'i4'", "'u1'", "'u2'", "'u4'", "'int8'", "'int16'", "'int32'",
+           "'uint8'", "'uint16'", "'uint32'", "'b'", "'B'", "'h'", "'H'", "'i'", "'I'", "'bool'", "'?'"}
+_FLOATS = {'float', 'np.float64', 'np.float32', 'np.float16', 'np.double', 'np.single', 'np.float_',
+           "'float'", "'float64'", "'float32'", "'f8'", "'f4'", "'d'", "'f'", 'complex', 'np.complex128'}
+# allocators: name -> (position of dtype, inherits the dtype of argument 0)
+_ALLOC = {'zeros': (1, False), 'empty': (1, False), 'ones': (1, False), 'full': (2, False),
+          'zeros_like': (1, True), 'empty_like': (1, True), 'ones_like': (1, True), 'full_like': (2, True)}
+
+
+def _dtype_width(e):
+    """'wide' (holds every frame index) | 'narrow' | 'float' | 'unknown' for a
+    dtype expression.  np.min_scalar_type(v) is by definition the SMALLEST
+    type that holds v: narrower than an index unless v is one."""
+    t = u(canon(e))
+    if t in _WIDE_INT:
+        return 'wide'
+    if t in _NARROW:
+        return 'narrow'
+    if t in _FLOATS:
+        return 'float'
+    if isinstance(e, ast.Call) and _last(call_name(e)) == 'min_scalar_type':
+        return 'narrow'
+    if isinstance(e, ast.Call) and _last(call_name(e)) == 'dtype' and len(e.args) == 1 and not e.keywords:
+        return _dtype_width(e.args[0])
+    return 'unknown'
+
+
+def _alloc_dtype(fi, v):
+    """Classify an array allocation: ('explicit', dtype expr) | ('default-float', None)
+    | ('inherits', prototype expr) | None (not a recognised allocation)."""
+    v = canon(fi.expand(v))
+    if not isinstance(v, ast.Call):
+        return None
+    nm = _last(call_name(v))
+    if nm not in _ALLOC or not (call_name(v) or '').startswith(('np.', 'numpy.')):
+        return None
+    pos, like = _ALLOC[nm]
+    dt = arg_or_kw(v, pos, 'dtype')
+    if dt is not None and not (isinstance(dt, ast.Constant) and dt.value is None):
+        return 'explicit', dt
+    if like:
+        return ('inherits', v.args[0]) if v.args else None
+    return 'default-float', None
+
+
+def d4_index_dtype(ck):
+    """find_cluster_centers stores FRAME INDICES into the array it returns (the
+    center_indices of every warm start / predict).  When that array is
+    allocated `<alloc>_like(np.unique(<labels>))` it has the dtype of the
+    LABELS, so every label array produced in the package must have an integer
+    dtype that holds any frame index (platform int); a narrower label dtype
+    makes the stored frame indices wrap around: center_indices[j] is then not
+    the frame of centers[j]."""
+    rule = 'C01.D4.index-dtype'
+    modu = ck.repo.mod(CU)
+    F = 'find_cluster_centers'
+    fn = modu.func(F)
+    fi = finfo(modu, fn)
+    ck.analysed(modu, fn)
+    rets = returns_of(fn)
+    if len(rets) != 1 or not isinstance(rets[0].value, ast.Name):
+        ck.missing(rule, '%s: single `return <index array>` of a plain name not found' % F)
+        return
+    R = rets[0].value.id
+    allocs = [s for s in assigns_to(fn, R) if isinstance(s, ast.Assign) and fi.def_value(s, R) is not None]
+    if len(allocs) != 1 or len(assigns_to(fn, R)) != 1:
+        ck.missing(rule, '%s: single allocation of the returned index array `%s` not found' % (F, R))
+        return
+    a = allocs[0]
+    kind = _alloc_dtype(fi, fi.def_value(a, R))
+    if kind is None:
+        ck.missing(rule, '%s: allocation of the index array not recognised: %s' % (F, u(a)[:100]))
+        return
+    inherits_from = None
+    if kind[0] == 'explicit':
+        w = _dtype_width(kind[1])
+        if w == 'unknown':
+            ck.missing(rule, '%s: dtype `%s` of the index array not recognised' % (F, u(kind[1])[:60]))
+            return
+        ck.check(w == 'wide', rule, modu, a, F, u(a),
+                 'the returned index array has an index-wide integer dtype of its own',
+                 'the array that receives frame indices has dtype %s: frame indices do not fit' % u(kind[1]))
+        ck.floor(rule, 1, 1, 'index-array allocations')
+        return
+    if kind[0] == 'default-float':
+        ck.bad(rule, modu, a, F, u(a), 'the array that receives frame indices is allocated without dtype (float64): '
+               'center_indices must be integers')
+        return
+    proto = kind[1]        # already expanded and canonical
+    ps = params(fn)
+    if isinstance(proto, ast.Call) and call_name(proto) in ('np.unique', 'np.sort') and len(proto.args) == 1 \
+            and not proto.keywords:
+        inner = proto.args[0]
+        while isinstance(inner, ast.Call) and call_name(inner) in ('np.unique', 'np.sort', 'np.asarray') \
+                and len(inner.args) == 1 and not inner.keywords:
+            inner = inner.args[0]
+        if isinstance(inner, ast.Name) and inner.id in ps and fi.rd.defs_at(a, inner.id) == {'PARAM'}:
+            inherits_from = ps.index(inner.id)
+    elif isinstance(proto, ast.Name) and proto.id in ps and fi.rd.defs_at(a, proto.id) == {'PARAM'}:
+        inherits_from = ps.index(proto.id)
+    if inherits_from is None:
+        ck.missing(rule, '%s: prototype `%s` of the index array is not derived from a parameter' % (F, u(kind[1])[:60]))
+        return
+    pname = ps[inherits_from]
+    # which in-package producers feed that parameter?
+    sweeps = []
+    for rel in (KC, KM, HY, CU):
+        m = ck.repo.mod(rel)
+        for q, f in m.functions.items():
+            for c in calls_in(f):
+                if _last(call_name(c)) != F:
+                    continue
+                arg = arg_or_kw(c, inherits_from, pname)
+                if not isinstance(arg, ast.Name):
+                    continue
+                fi2 = finfo(m, f)
+                try:
+                    defs = fi2.defs_of_use(arg)
+                except Exception:
+                    continue
+                for site in defs:
+                    if isinstance(site, ast.Assign) and isinstance(site.value, ast.Call) and \
+                            _last(call_name(site.value)) == 'assign_to_nearest_center' and \
+                            isinstance(site.targets[0], ast.Tuple) and site.targets[0].elts and \
+                            isinstance(site.targets[0].elts[0], ast.Name) and site.targets[0].elts[0].id == arg.id:
+                        sweeps.append((m, q, c))
+    n = 0
+    why = ('%s allocates its result as `%s`, i.e. in the dtype of its `%s` argument, and stores frame indices in it'
+           % (F, u(fi.def_value(a, R))[:60], pname))
+    if not sweeps:
+        ck.ok(rule, modu, a, u(a), 'index array inherits the label dtype; no in-package label producer feeds it')
+        ck.floor(rule, 1, 1, 'index-array allocations')
+        return
+    # the producer: the label array returned by assign_to_nearest_center
+    P = 'assign_to_nearest_center'
+    fnp = modu.func(P)
+    fip = finfo(modu, fnp)
+    ck.analysed(modu, fnp)
+    prets = [e for _, e in _ret_tuples(fip, fnp, 2) if e]
+    if not prets or not all(isinstance(e[0], ast.Name) for e in prets) or len({e[0].id for e in prets}) != 1:
+        ck.missing(rule, '%s: returned label array not found' % P)
+        return
+    A = prets[0][0].id
+    adefs = [s for s in assigns_to(fnp, A)]
+    if not adefs:
+        ck.missing(rule, '%s: allocation of the label array `%s` not found' % (P, A))
+        return
+    for s in adefs:
+        v = fip.def_value(s, A) if isinstance(s, ast.Assign) else None
+        k = _alloc_dtype(fip, v) if v is not None else None
+        if k is None or k[0] == 'inherits':
+            ck.missing(rule, '%s: allocation of the label array not recognised: %s' % (P, u(s)[:100]))
+            continue
+        n += 1
+        if k[0] == 'default-float':
+            ck.bad(rule, modu, s, P, u(s), 'the label array is allocated without an integer dtype; ' + why)
+            continue
+        w = _dtype_width(k[1])
+        if w == 'unknown':
+            ck.missing(rule, '%s: dtype `%s` of the label array not recognised' % (P, u(k[1])[:60]))
+            n -= 1
+            continue
+        ck.check(w == 'wide', rule, modu, s, P, u(s),
+                 'labels are platform integers: the index array derived from them holds any frame index',
+                 'the label array gets the dtype `%s`, which does not hold every frame index; %s (%d warm-start/'
+                 'predict site(s), e.g. %s): indices beyond the range of that dtype wrap around, so '
+                 'center_indices[j] is no longer the frame of centers[j]' % (
+                     u(k[1])[:60], why, len(sweeps), sweeps[0][1]))
+    ck.floor(rule, n, 1, 'label-array allocations feeding find_cluster_centers')
+
+
 def _unpack_by_use(mod, fn, fi, s):
     """Roles of an (a, d) unpacking by what the two names are passed as."""
     a, d = [e.id if isinstance(e, ast.Name) else None for e in s.targets[0].elts]
@@ -1316,6 +1707,7 @@ def check(ck):
     d1_lockstep(ck)
     d1_warmstart(ck)
     d1_propose(ck)
+    d1_no_reselect(ck)
     kc = ck.repo.mod(KC)
     n = check_running_min_commit(ck, 'C01.D2.commit', kc, '_kcenters_iteration',
                                  True, 'len-before-append')
@@ -1329,6 +1721,7 @@ def check(ck):
     d2_shortcut_optin(ck)
     d3_pam_three_way(ck)
     d4_result_fields(ck)
+    d4_index_dtype(ck)
     entries = [(KC, 'kcenters'), (KC, 'kcenters_mpi'), (KM, 'kmedoids'),
                (HY, 'hybrid'), (CU, 'assign_to_nearest_center'),
                (CU, 'find_cluster_centers'), (KC, 'KCenters.fit'),
